@@ -172,12 +172,15 @@ def operators(rep):
 def check(tier):
     rep = Report(PROP, tier)
     kmax = 4 if tier == "thorough" else 3
+    kmax = 4
+    stacks = [t for k in range(1, 4) for t in itertools.product(SHAPES, repeat=k)]
+    five = [n for n in SHAPES if n != "safe-dict"]
+    stacks += list(itertools.product(five, repeat=4))
     if tier == "thorough":
-        stacks = [t for k in range(1, 4) for t in itertools.product(SHAPES, repeat=k)]
-        five = [n for n in SHAPES if n != "safe-dict"]
-        stacks += list(itertools.product(five, repeat=4))
-    else:
-        stacks = [t for k in range(1, kmax + 1) for t in itertools.product(SHAPES, repeat=k)]
+        stacks += [t for t in itertools.product(SHAPES, repeat=4) if "safe-dict" in t]
+        four = ["safe-list", "suspicious", "likely-unsafe", "overtly"]
+        stacks += list(itertools.product(four, repeat=5))
+        kmax = 5
     with e3.Scratch("c10") as wd:
         e3.pmap(_file, [(s, wd) for s in stacks], rep, chunksize=4)
     nops = operators(rep)
